@@ -396,6 +396,11 @@ func (b *Bucket) OpenUploadStreamWithID(ctx context.Context, id interface{}, nam
 		chunkSize = int(*opt.ChunkSizeBytes)
 	}
 
+	// check chunk size (chunks are cut from the fixed size upload buffer)
+	if chunkSize <= 0 || chunkSize > gridfs.UploadBufferSize {
+		return nil, fmt.Errorf("invalid chunk size")
+	}
+
 	// create stream
 	stream := newUploadStream(ctx, b, id, name, chunkSize, opt.Metadata)
 
@@ -1165,6 +1170,8 @@ func (s *DownloadStream) Seek(offset int64, whence int) (int64, error) {
 		position = s.position + int(offset)
 	case io.SeekEnd:
 		position = s.file.Length + int(offset)
+	default:
+		return 0, fmt.Errorf("invalid whence")
 	}
 
 	// seek to position
